@@ -195,13 +195,13 @@ func c02Shapes(tier int) []c02Shape {
 		}
 	}
 	if tier > 0 {
-		// three units over the quick subset
+		// three units over subsets
 		for _, c1 := range []int{0, 2} {
-			for _, u1 := range c02QuickSecond {
+			for _, u1 := range []int{0, 1, 2, 5, 6, 9, 12, 14} {
 				for c2 := 0; c2 <= 2; c2++ {
-					for _, u2 := range c02QuickSecond {
+					for _, u2 := range []int{0, 1, 3, 6, 9, 11, 15, 20} {
 						for c3 := 0; c3 <= 2; c3++ {
-							for _, u3 := range []int{0, 1, 6, 14} {
+							for _, u3 := range []int{0, 1, 6} {
 								r = append(r, c02Shape{comb: []int{c1, c2, c3}, unit: []int{u1, u2, u3}})
 							}
 						}
@@ -314,6 +314,10 @@ func H_C02_Chain(shape int) {
 	acc := &c02Acc{}
 	for i := range sh.comb {
 		u := c02MakeUnit(sh.unit[i], base, row, "u"+string([]byte{byte('0' + i)}))
+		if sh.comb[i] == 1 && !acc.have {
+			// every earlier unit was empty: the chain effectively starts with Or (outside C02)
+			verifrt.Assume(false)
+		}
 		db = c02Apply(db, sh.comb[i], u, acc)
 	}
 	var stmt *gorm.Statement
